@@ -22,6 +22,10 @@ coloquinte::ColoquinteParameters buildParams(const ParamSpec &p);
 bool applyOverride(coloquinte::ColoquinteParameters &params, const std::string &key, double v);
 const std::vector<std::string> &allParamKeys();
 double paramValue(const ParamSpec &p, const std::string &key, double dflt);
+// Reference model of the documented parameter ranges (the bounds named by the
+// messages of the *Parameters::check() functions of the pinned tree), used to
+// decide independently of the library whether a parameter set must be refused.
+bool refParamsValid(const coloquinte::ColoquinteParameters &p, std::string *why = nullptr);
 
 // Structural snapshot of every public getter of a Circuit.
 struct Snapshot {
